@@ -243,20 +243,23 @@ class ForwardScheduler(IScheduler):
     def __forward_pass(
             self,
             _task: Task,
-            min_date: datetime,
             resource_usage: _ResourceUsage,
             calculated: List[int]
     ):
         if _task.id in calculated:
             return
 
-        for pred in _task.predecessors:
-            self.__forward_pass(pred, min_date, resource_usage, calculated)
+        # Task can't start before its own predecessors and predecessors of all its parents are finished,
+        # no matter from which task the pass came here
+        predecessors = [p for t in [_task] + [t for t in _task.all_parents] for p in t.predecessors]
 
-        max_predecessor_ends = max([t.end for t in _task.predecessors if t.end is not None] + [min_date])
+        for pred in predecessors:
+            self.__forward_pass(pred, resource_usage, calculated)
+
+        max_predecessor_ends = max([t.end for t in predecessors if t.end is not None] + [self.__start])
 
         for ch in _task.children:
-            self.__forward_pass(ch, max_predecessor_ends, resource_usage, calculated)
+            self.__forward_pass(ch, resource_usage, calculated)
 
         resource = self.__resources.setdefault(_task.resource, Resource(_task.resource))
 
@@ -278,7 +281,7 @@ class ForwardScheduler(IScheduler):
                     children_starts = [t.start for t in _task.children if t.start is not None]
                     if len(children_starts) == 0:
                         children_starts = [datetime(1970, 1, 1)]
-                    _task.start = max(min(children_starts), min_date)
+                    _task.start = max(min(children_starts), max_predecessor_ends)
 
             if _task.estimate is None:
                 if is_leaf:
@@ -318,7 +321,7 @@ class ForwardScheduler(IScheduler):
         forward_resource_usage = _ResourceUsage()
         calculated = []
         for t in forward.roots:
-            self.__forward_pass(t, self.__start, forward_resource_usage, calculated)
+            self.__forward_pass(t, forward_resource_usage, calculated)
 
         return Schedule(
             forward,
@@ -415,20 +418,23 @@ class BackwardScheduler(IScheduler):
     def __backward_pass(
             self,
             _task: Task,
-            min_date: datetime,
             resource_usage: _ResourceUsage,
             calculated: List[int]
     ):
         if _task.id in calculated:
             return
 
-        for pred in _task.successors:
-            self.__backward_pass(pred, min_date, resource_usage, calculated)
+        # Task must be finished before its own successors and successors of all its parents start,
+        # no matter from which task the pass came here
+        successors = [s for t in [_task] + [t for t in _task.all_parents] for s in t.successors]
 
-        min_successor_starts = min([t.start for t in _task.successors if t.start is not None] + [min_date])
+        for succ in successors:
+            self.__backward_pass(succ, resource_usage, calculated)
+
+        min_successor_starts = min([t.start for t in successors if t.start is not None] + [self.__end])
 
         for ch in reversed(_task.children):
-            self.__backward_pass(ch, min_successor_starts, resource_usage, calculated)
+            self.__backward_pass(ch, resource_usage, calculated)
 
         resource = self.__resources.setdefault(_task.resource, Resource(_task.resource))
 
@@ -447,9 +453,9 @@ class BackwardScheduler(IScheduler):
                 else:
                     children_ends = [t.end for t in _task.children if t.end is not None]
                     if len(children_ends) == 0:
-                        _task.end = min_date
+                        _task.end = min_successor_starts
                     else:
-                        _task.end = min(max(children_ends), min_date)
+                        _task.end = min(max(children_ends), min_successor_starts)
 
             if _task.estimate is None:
                 if is_leaf:
@@ -465,7 +471,7 @@ class BackwardScheduler(IScheduler):
 
             if is_leaf:
                 left_hours = max(_task.estimate - _task.spent, 0)
-                end = min(_task.end, min_date)
+                end = min(_task.end, min_successor_starts)
                 start = self.__shift_by_resource_usage_and_calendar(
                     resource, resource_usage, end, _task, left_hours
                 )
@@ -495,7 +501,7 @@ class BackwardScheduler(IScheduler):
 
         calculated = []
         for i in range(len(backward_roots) - 1, -1, -1):
-            self.__backward_pass(backward_roots[i], self.__end, backward_resource_usage, calculated)
+            self.__backward_pass(backward_roots[i], backward_resource_usage, calculated)
 
         return Schedule(
             backward,
